@@ -16,6 +16,7 @@ import NGF.Model.LeaderJudge
 import NGF.Proofs.Leader
 import NGF.Proofs.LeaderJudge
 import NGF.Generated.LeaderFacts
+import NGF.Props.C09Wiring
 
 namespace NGF.Leader
 
